@@ -1,2 +1,42 @@
-(* Props/C17.v — placeholder, theorems added in a later commit *)
-From NIR Require Import Model.Serial.
+(* Props/C17.v — Observing a graph never changes it.  In the functional model a graph is a value and the
+   observers (to_dict, write, check_types, inputs, outputs) are functions that RETURN something else, so
+   they cannot change it by construction; what is proved here is that their results depend only on what
+   they are documented to read.  The frame condition of the CPython code is tied behaviourally. *)
+From NIR Require Import Model.Serial Proofs.SerialProofs.
+
+(* the type check reads nothing but the two types of each child (not fields, metadata or cached types) *)
+Theorem c17_check_reads_types_only : forall ch ch' es,
+  (forall k, match assoc k ch, assoc k ch' with
+             | Some a, Some b => same_types a b
+             | None, None => True
+             | _, _ => False
+             end) ->
+  check_edges ch es = check_edges ch' es.
+Proof. exact check_edges_types_only. Qed.
+
+(* observers do not depend on the cached graph-level types *)
+Theorem c17_to_dict_ignores_cache : forall ch es gi go gi' go' m,
+  to_dict (Graph ch es gi go m) = to_dict (Graph ch es gi' go' m).
+Proof. reflexivity. Qed.
+
+Theorem c17_check_ignores_cache : forall ch es gi go gi' go' m m',
+  check_types (Graph ch es gi go m) = check_types (Graph ch es gi' go' m').
+Proof. reflexivity. Qed.
+
+(* nir.write depends on the graph only through its dictionary form *)
+Theorem c17_write_reads_dict_only : forall g g', to_dict g = to_dict g' -> write g = write g'.
+Proof. intros g g' H. unfold write. rewrite H. reflexivity. Qed.
+
+(* inputs / outputs are filters: they return sub-lists of the children *)
+Theorem c17_inputs_sublist : forall ch p, In p (inputs ch) -> In p ch.
+Proof. intros ch p H. unfold inputs in H. apply filter_In in H. apply H. Qed.
+
+Theorem c17_outputs_sublist : forall ch p, In p (outputs ch) -> In p ch.
+Proof. intros ch p H. unfold outputs in H. apply filter_In in H. apply H. Qed.
+
+Print Assumptions c17_check_reads_types_only.
+Print Assumptions c17_to_dict_ignores_cache.
+Print Assumptions c17_check_ignores_cache.
+Print Assumptions c17_write_reads_dict_only.
+Print Assumptions c17_inputs_sublist.
+Print Assumptions c17_outputs_sublist.
